@@ -6,6 +6,12 @@ ALL = ["C%02d" % i for i in range(1, 21)]
 
 # id -> (technique, level text, level note, design ref)
 CHECKS = {
+    "C15": (
+        "bounded-exhaustive enumeration of edit/LIST/DELETE histories over small line-number universes + proptest random long histories, against a BTreeMap reference model compared after every step",
+        "Exploration with a reference model. Small scope is complete: every history of up to 3 operations (4 in thorough) over {0,1,10,65528,65529} and {0,10,65529}, every range form including inverted ones and numbers above 65529; after each operation the whole listing, every ranged LIST and Listing::line are compared with the model. Random histories of up to 60 operations cover the full number range.",
+        "Line texts are canonical so that listed text equals typed text (fidelity is C05). Longer histories only sampled.",
+        "6 C15",
+    ),
     "C03": (
         "proptest-generated lines and protocol-respecting call sessions (enter/execute/interrupt/snapshot/set_listing) against a validity predicate: catch_unwind, wedge watchdog, bounded recovery to READY",
         "Exploration by generated inputs and schedules: hundreds of thousands of lines (snippets, token soup over the whole vocabulary, mutations, arbitrary UTF-8, 1024-byte lines) and sessions per run, each ending with the recovery clause (interrupt, Stopped within 16 calls, PRINT 1 works). A panic anywhere in the library or a call that does not return is reported with the shrunk session.",
